@@ -477,7 +477,7 @@ def string_obligations(chk):
         o.result = 'discharged' if ok else 'failed'; o.backend = 'native-exhaustive'; o.ms = 0.0; o.detail = detail
         chk.lemmas.append(o); return o
     wrong = [c for c in cps if M.encode_basestring(chr(c)) != '"' + rfc8785_char(c) + '"']
-    o = ob('encode_basestring (the encoder bound at import: ' + ('_json C function' if M.encode_basestring is M.c_encode_basestring else 'pure Python') + '): every single character is written as RFC 8785 3.2.2.2 says '
+    o = ob('encode_basestring (the encoder bound at import: ' + ('_json C function' if M.encode_basestring is getattr(M, 'c_encode_basestring', None) else 'pure Python') + '): every single character is written as RFC 8785 3.2.2.2 says '
            f'[{len(cps)} code points]', not wrong, f'first disagreement U+{wrong[0]:04X}' if wrong else '')
     if wrong:
         c = wrong[0]
